@@ -121,7 +121,7 @@ for k in range(7):
 OBS.update({
     "symbolmap_rollback_fresh_names": dict(kind="bounded", bound="7 histories", functions=["SymbolMap::roll_back", "SymbolMap::add"],
                                            contract="a failed compilation that only defined fresh names with an empty free list is undone exactly: every earlier binding as before, the new names unbound"),
-    "symbolmap_rollback_redefinition": dict(kind="known", bound="1 history", functions=["SymbolMap::roll_back", "SymbolMap::add"],
+    "symbolmap_rollback_redefinition": dict(kind="bounded", bound="1 history", functions=["SymbolMap::roll_back", "SymbolMap::add"],
                                             contract="same, when the failed compilation redefined an existing name"),
     "symbolmap_rollback_recycled_slot": dict(kind="known", bound="1 history", functions=["SymbolMap::roll_back", "SymbolMap::add"],
                                              contract="same, when the failed compilation consumed a recycled slot"),
